@@ -1826,10 +1826,11 @@ fn read_residuals<R: BitRead, I: SignedInteger>(
         let partition_count = 1 << partition_order;
 
         // a partition order too large for the block leaves
-        // no samples per partition, which can't be chunked
-        let partition_len = match block_size / partition_count {
-            0 => return Err(Error::InvalidPartitionOrder),
-            len => len,
+        // no samples per partition, which can't be chunked,
+        // and the block must divide evenly into its partitions
+        let partition_len = match (block_size / partition_count, block_size % partition_count) {
+            (len @ 1.., 0) => len,
+            _ => return Err(Error::InvalidPartitionOrder),
         };
 
         let partitions = residuals.rchunks_mut(partition_len).rev();
